@@ -437,7 +437,8 @@ Definition run_pipeline (c : cx) (a : assocs) (q : qarg) (p : list cb) (s : S) :
   fold_left (fun s x => run_cb c a q x s) p s.
 
 (* ------------------------------------------------------------------ operations (finisher_api.go) *)
-Inductive okind := OCreate | OSave | OUpdate | OUpdateColumn | ODelete | OFind | OFirst.
+Inductive okind := OCreate | OSave | OUpdate | OUpdateColumn | ODelete | OFind | OFirst
+                 | OCreateInBatches (batch : Z).
 Inductive payvia := PVMapDb | PVMapField | PVStruct.
 
 Record op := mk_op {
@@ -476,6 +477,47 @@ Definition run_save_struct (o : op) (s : S) : S :=
   | [] => s
   end.
 
+(* finisher_api.go CreateInBatches over a slice: batches of [b] records, each batch a Create of
+   reflectValue.Slice(i, ends) on a fresh instance (subtx), stopping at the first batch that fails;
+   when there is more than one batch and the default transaction is on, the loop runs inside
+   tx.Transaction(callFc) (inside a caller's transaction that is a save point, which leaves no
+   BEGIN/COMMIT in the trace), otherwise every batch runs in its own default transaction *)
+Fixpoint chunks (fuel : nat) (b : nat) (l : list mrec) : list (list mrec) :=
+  match fuel, l with
+  | _, [] => []
+  | O, _ => [l]
+  | Datatypes.S f, _ => firstn b l :: chunks f b (skipn b l)
+  end.
+
+Definition batch_cx (o : op) : cx :=
+  let c := op_cx o (o_skip o) DSelf in
+  mk_cx (c_ty c) (mk_shape CSlice false (sh_elem_ptr (o_shape o))) (c_table c) (c_skip c) (c_skipdef c) DSelf
+        (c_fails c) (c_sets c) (c_setkey c) false.
+
+Definition run_batch (o : op) (ch : list mrec) (s : S) : S :=
+  set_recs (s_recs s) (run_pipeline (batch_cx o) (no_assocs (a_tys (o_assocs o))) (mk_qarg false 0) create_pipeline (set_recs ch s)).
+
+Fixpoint run_batches (o : op) (chs : list (list mrec)) (s : S) : S :=
+  match chs with
+  | [] => s
+  | ch :: r => let s1 := run_batch o ch s in if is_nil (s_err s1) then run_batches o r s1 else s1
+  end.
+
+Definition run_create_in_batches (o : op) (b : Z) (s : S) : S :=
+  let n := Z.of_nat (length (o_recs o)) in
+  let bs := Z.to_nat (Z.max 1 b) in
+  let chs := chunks (length (o_recs o)) bs (o_recs o) in
+  let skipdef := match o_txmode o with TxSkipDefault => true | _ => false end in
+  if skipdef || (n <=? b) || negb (s_pool s =? 0) then run_batches o chs s
+  else
+    (* tx.Transaction(callFc): BEGIN, the batches on the transaction, COMMIT / ROLLBACK *)
+    let k := s_ntx s + 1 in
+    let s0 := mkS (s_k s) (s_err s) (s_tr s ++ [TBegin]) (s_recs s) (s_pay s) (s_payS s) k k false (s_tbl s) (s_tbl s) in
+    let s1 := run_batches o chs s0 in
+    if is_nil (s_err s1)
+    then mkS (s_k s1) (s_err s1) (s_tr s1 ++ [TCommit]) (s_recs s1) (s_pay s1) (s_payS s1) 0 (s_ntx s1) false (s_tbl s1) (s_tbl s1)
+    else mkS (s_k s1) (s_err s1) (s_tr s1 ++ [TRollback]) (s_recs s1) (s_pay s1) (s_payS s1) 0 (s_ntx s1) false (s_snap s0) (s_snap s0).
+
 Definition run_body (o : op) (s : S) : S :=
   match o_kind o with
   | OCreate => run_pipeline (op_cx o (o_skip o) DSelf) (o_assocs o) no_q create_pipeline s
@@ -490,6 +532,7 @@ Definition run_body (o : op) (s : S) : S :=
   | ODelete => run_pipeline (op_cx o (o_skip o) DSelf) (o_assocs o) no_q delete_pipeline s
   | OFind => run_pipeline (op_cx o (o_skip o) DSelf) (o_assocs o) (mk_qarg false (o_limit o)) query_pipeline (set_recs [] s)
   | OFirst => run_pipeline (op_cx o (o_skip o) DSelf) (o_assocs o) (mk_qarg true (o_limit o)) query_pipeline (set_recs [] s)
+  | OCreateInBatches b => run_create_in_batches o b s
   end.
 
 (* the caller of an operation inside an explicit transaction: roll back on error, else commit *)
